@@ -519,9 +519,9 @@ CheckCb(tk, e, tk2) ==
     \cup V(step /\ PlanObs /\ rstart /\ proc /\ pos = <<>> /\ ~(e.pend[1] = tk.lastreq[1] /\ e.pend[2] = tk.lastreq[2])
              => ~\E q \in 1 .. Len(pb) : pb[q] = e.pend /\ pb[q][1] = a0,
            "C08", "a task issued its transition but was not removed from the plan")
-    \cup V(FullObs /\ step /\ PlanObs /\ pb # <<>> /\ pb[1][1] = a0 /\ a0 \in tk.succ /\ tk.mfail = {} /\ tk.sawF = {} => ~IsPlanCb(e.m) /\ pos # <<>> /\ pos[1] = 1,
+    \cup V(FullObs /\ step /\ PlanObs /\ pb # <<>> /\ pb[1][1] = a0 /\ a0 \in tk.succ /\ a0 \notin tk.mfail /\ tk.sawF = {} => ~IsPlanCb(e.m) /\ pos # <<>> /\ pos[1] = 1,
            "C08", "the first task did not fire although its origin is active and reported success without failures")
-    \cup V(FullObs /\ step /\ PlanObs /\ tk.lastreq # NoT /\ pb # <<>> /\ pb[1][1] = a0 /\ a0 \in tk.succ /\ tk.mfail = {} /\ tk.sawF = {} => ~IsPlanCb(e.m) /\ pos # <<>> /\ pos[1] = 1,
+    \cup V(FullObs /\ step /\ PlanObs /\ tk.lastreq # NoT /\ pb # <<>> /\ pb[1][1] = a0 /\ a0 \in tk.succ /\ a0 \notin tk.mfail /\ tk.sawF = {} => ~IsPlanCb(e.m) /\ pos # <<>> /\ pos[1] = 1,
            "C02", "the plan's request (the latest of the cycle) did not replace the earlier unprocessed request")
     \cup V(~step /\ ~IsPlanCb(e.m) /\ rstart /\ proc /\ tk.op \in {"update", "react"} /\ tk.stepDone /\ tk.rounds = 0 /\ tk.outcome = 2
              => ~(\E q \in 1 .. Len(tk.planBefore) : tk.planBefore[q] = e.pend) \/ (e.pend[1] = tk.lastreq[1] /\ e.pend[2] = tk.lastreq[2]),
@@ -646,9 +646,9 @@ CheckRet(tk, e, tk2) ==
     \cup V(step /\ PlanObs => IsSubseq(e.plan, pb, 1, 1), "C08", "tasks that did not fire were reordered or replaced in the plan step")
     \cup V(step /\ PlanObs => \A q \in 1 .. Len(pos) : pos[q] <= PrefixLen(pb, a0, 1) /\ pb[pos[q]][1] \in tk.msucc,
            "C08", "a task fired whose origin is not the active state with an outstanding success, or past a task of another origin")
-    \cup V(FullObs /\ step /\ PlanObs /\ pb # <<>> /\ pb[1][1] = a0 /\ a0 \in tk.succ /\ tk.mfail = {} /\ tk.sawF = {} => pos # <<>> /\ pos[1] = 1,
+    \cup V(FullObs /\ step /\ PlanObs /\ pb # <<>> /\ pb[1][1] = a0 /\ a0 \in tk.succ /\ a0 \notin tk.mfail /\ tk.sawF = {} => pos # <<>> /\ pos[1] = 1,
            "C08", "the first task did not fire although its origin is active and reported success without failures")
-    \cup V(FullObs /\ step /\ PlanObs /\ tk.lastreq # NoT /\ pb # <<>> /\ pb[1][1] = a0 /\ a0 \in tk.succ /\ tk.mfail = {} /\ tk.sawF = {} => pos # <<>> /\ pos[1] = 1,
+    \cup V(FullObs /\ step /\ PlanObs /\ tk.lastreq # NoT /\ pb # <<>> /\ pb[1][1] = a0 /\ a0 \in tk.succ /\ a0 \notin tk.mfail /\ tk.sawF = {} => pos # <<>> /\ pos[1] = 1,
            "C02", "the plan's request (the latest of the cycle) did not replace the earlier unprocessed request")
     \cup V(step /\ pb # <<>> /\ a0 \in tk.fail /\ HasHead => FALSE, "C09", "planFailed not delivered although the plan is non-empty and the active state reported failure")
     \cup V(FullObs /\ step /\ pb # <<>> /\ (tk.repF \/ tk.dres = 2) /\ HasHead => FALSE,
